@@ -15,13 +15,13 @@
 #
 import datetime as dt
 import pathlib
-import traceback
 from collections.abc import Callable
 from html import escape
 
 from uberjob.progress._simple_progress_observer import (
     ScopeState,
     SimpleProgressObserver,
+    format_exception_tuple,
     get_elapsed_string,
     get_scope_string,
     sorted_scope_items,
@@ -186,7 +186,7 @@ def _render_exception_tuples(exception_tuples):
 def _render_exception_tuple(i, scope, exception_tuple):
     show = "show" if i == 0 else ""
     collapsed = "collapsed" if i != 0 else ""
-    exception_tuple_str = "".join(traceback.format_exception(*exception_tuple))
+    exception_tuple_str = format_exception_tuple(exception_tuple)
     return f"""
         <div class="accordion-item">
           <h2 class="accordion-header" id="heading{i}">
